@@ -17,7 +17,10 @@ type mTable struct {
 	involved []int           // instances that export or import this table (empty: never exported)
 }
 
-type mGlob struct{ owner int }
+type mGlob struct {
+	owner   int // owner instance of the reference held, -1 = null
+	definer int // instance that defines the global
+}
 
 type mInst struct {
 	ok       bool // the model believes the instance was created
@@ -135,10 +138,13 @@ func (m *model) addInst(rt, spec, cm int, name string) {
 	}
 	in.tab1 = &mTable{slots: [tableSlots]int{-1, -1, -1}}
 	if sp.GlobFrom != "" {
-		in.globFrom = m.names[rt][sp.GlobFrom]
-		in.glob = m.insts[in.globFrom].glob
+		// the imported global may itself be a re-export: what the compiler keeps reachable is
+		// the instance that DEFINES the global (GlobalInstance.Me)
+		src := m.insts[m.names[rt][sp.GlobFrom]]
+		in.glob = src.glob
+		in.globFrom = in.glob.definer
 	} else {
-		in.glob = &mGlob{owner: -1}
+		in.glob = &mGlob{owner: -1, definer: h}
 	}
 	if sp.Elem >= 0 && sp.Elem < tableSlots {
 		in.tab0.slots[sp.Elem] = h
@@ -212,6 +218,12 @@ func (m *model) apply(s step) {
 		switch s.Src {
 		case "func":
 			owner = s.Inst
+			if s.K >= 2 && m.cfg.Engine == "compiler" && m.insts[s.Inst].impFrom >= 0 {
+				// ref.func of an imported function: the compiler asks the defining instance's
+				// engine for the reference; the interpreter points into the importer's own
+				// function array
+				owner = m.insts[s.Inst].impFrom
+			}
 		case "slot":
 			owner = m.table(s.Inst, s.K).slots[s.Slot]
 		case "glob":
@@ -363,7 +375,7 @@ func (m *model) observe() {
 // (exporter/importers) in a table they use and, with the compiler only, the instance an
 // imported global belongs to. An instance with a suspended call counts as well (the goroutine
 // stack references it, and the call uses its tables when it resumes).
-func (m *model) retained() map[int]bool {
+func (m *model) retained(callsAreRoots bool) map[int]bool {
 	ret := map[int]bool{}
 	var work []int
 	add := func(h int) {
@@ -378,7 +390,7 @@ func (m *model) retained() map[int]bool {
 		}
 	}
 	for _, c := range m.calls {
-		if !c.finished {
+		if callsAreRoots && !c.finished {
 			add(c.inst) // the suspended call will use the instance's tables when it resumes
 		}
 	}
@@ -402,7 +414,15 @@ func (m *model) retained() map[int]bool {
 // escaped reports whether some retained instance holds, in a table slot or the funcref
 // global, a reference owned by an instance that is NOT retained (the known finding's class).
 func (m *model) escaped() (bool, string) {
-	ret := m.retained()
+	// both while the suspended calls are still on their stacks and after they have returned
+	if bad, why := m.escapedWith(true); bad {
+		return bad, why
+	}
+	return m.escapedWith(false)
+}
+
+func (m *model) escapedWith(callsAreRoots bool) (bool, string) {
+	ret := m.retained(callsAreRoots)
 	hs := make([]int, 0, len(ret))
 	for h := range ret {
 		hs = append(hs, h)
